@@ -408,6 +408,15 @@ def run(out, info, tier, seed):
     for f in fails[:1]:
         out.violations.append(f)
     kf = {f['id']: f for f in common.known_findings('C08')}
+    if known and info.driver_ok:
+        # F13 is about the pairs that the comparison as specified (Time/Spec.v ilt, proved equal to the translated __lt__)
+        # orders this way; a pair that only the current source orders so is something else
+        sp = common.batch_model([f"s_ilt {s_int(tuple(k_['a'][:2]) + (tuple(k_['a'][2]),))} {s_int(tuple(k_['b'][:2]) + (tuple(k_['b'][2]),))}" for k_ in known])
+        other = [k_ for k_, r_ in zip(known, sp) if r_ != 'ok 1']
+        known = [k_ for k_, r_ in zip(known, sp) if r_ == 'ok 1']
+        for k_ in other[:1]:
+            out.violations.append(dict(kind='call', law='smaller_delay_never_later', a=k_['a'], b=k_['b'], t=k_['t'],
+                                       observed='a < b is True for delays of different cutoff that the specified order does not put this way, and t + a arrives later than t + b'))
     if known and 'F13' in kf:
         out.known_hits.append((kf['F13'], f"a<b is True but t+a > t+b for delays of different cutoff, e.g. a={known[0]['a']} b={known[0]['b']} t={known[0]['t']} ({len(known)} such pairs in scope)"))
     elif known:
